@@ -10,27 +10,27 @@ P3 = "probminhasher::probminhash3::ProbMinHash3::<D, H>::"
 P3A = "probminhasher::probminhash3::ProbMinHash3a::<D, H>::"
 SHA = "probminhasher::probminhash3sha::ProbMinHash3aSha::<D>::"
 
-ITEM = ["param id", "self.b_hasher"]
-MAPK = ["param data.0", "self.b_hasher"]
-SHAK = ["param data.0", "call *Digest>::new"]
+ITEM = ["param #1:*", "self.b_hasher"]
+MAPK = ["param #1:*.0", "self.b_hasher"]
+SHAK = ["param #1:*.0", "call *Digest>::new"]
 
 SEED_TABLE = {
-    P2 + "hash_item": [dict(callee="seed_from_u64", allowed=ITEM, required=["param id"])],
-    P3 + "hash_item": [dict(callee="seed_from_u64", allowed=ITEM, required=["param id"])],
-    P3A + "hash_weigthed_idxmap": [dict(callee="seed_from_u64", allowed=MAPK, required=["param data.0"])],
-    P3A + "hash_weigthed_hashmap": [dict(callee="seed_from_u64", allowed=MAPK, required=["param data.0"])],
-    SHA + "hash_weigthed_idxmap": [dict(callee="from_seed", allowed=SHAK, required=["param data.0"])],
-    SHA + "hash_weigthed_hashmap": [dict(callee="from_seed", allowed=SHAK, required=["param data.0"])],
+    P2 + "hash_item": [dict(callee="seed_from_u64", allowed=ITEM, required=["param #1:*"])],
+    P3 + "hash_item": [dict(callee="seed_from_u64", allowed=ITEM, required=["param #1:*"])],
+    P3A + "hash_weigthed_idxmap": [dict(callee="seed_from_u64", allowed=MAPK, required=["param #1:*.0"])],
+    P3A + "hash_weigthed_hashmap": [dict(callee="seed_from_u64", allowed=MAPK, required=["param #1:*.0"])],
+    SHA + "hash_weigthed_idxmap": [dict(callee="from_seed", allowed=SHAK, required=["param #1:*.0"])],
+    SHA + "hash_weigthed_hashmap": [dict(callee="from_seed", allowed=SHAK, required=["param #1:*.0"])],
 }
 
 # functions that run the race: (fn, tracker field, allowed roots of the value stored in the signature)
 RACE_FNS = [
-    (P2 + "hash_item", ["param id"]),
-    (P3 + "hash_item", ["param id"]),
-    (P3A + "hash_weigthed_idxmap", ["param data.0", "self.to_be_processed.0"]),
-    (P3A + "hash_weigthed_hashmap", ["param data.0", "self.to_be_processed.0"]),
-    (SHA + "hash_weigthed_idxmap", ["param data.0", "self.to_be_processed.0"]),
-    (SHA + "hash_weigthed_hashmap", ["param data.0", "self.to_be_processed.0"]),
+    (P2 + "hash_item", ["param #1:*"]),
+    (P3 + "hash_item", ["param #1:*"]),
+    (P3A + "hash_weigthed_idxmap", ["param #1:*.0", "self.to_be_processed.0"]),
+    (P3A + "hash_weigthed_hashmap", ["param #1:*.0", "self.to_be_processed.0"]),
+    (SHA + "hash_weigthed_idxmap", ["param #1:*.0", "self.to_be_processed.0"]),
+    (SHA + "hash_weigthed_hashmap", ["param #1:*.0", "self.to_be_processed.0"]),
 ]
 TRACKER = "maxvaluetracker"
 
@@ -242,10 +242,11 @@ def _deleg(ctx, facts, fid, item):
         return
     # the weight local must be the map value or data.get_weight(obj) of the same key
     wd = [nf.nf(e) for e in __import__("pmh.rulelib", fromlist=["def_exprs"]).def_exprs(fn, s1["res"]["name"])]
-    if wd and not all(re.match(r"^data\.get_weight\(%s\)$" % re.escape(nf.nf(a0)), d) for d in wd):
+    if wd and not all(re.match(r"^\w+\.get_weight\(%s\)$" % re.escape(nf.nf(a0)), d) for d in wd):
         ctx.violation("DELEG", fid, "weight argument", hirq.loc(c), "the weight is computed as %s" % wd)
         return
-    if not wd and not (r1 <= {"param data.1"} and r0 <= {"param data.0"}):
+    import fnmatch as _fn
+    if not wd and not (all(_fn.fnmatchcase(x, "param #1:*.1") for x in r1) and all(_fn.fnmatchcase(x, "param #1:*.0") for x in r0) and r0 and r1):
         ctx.violation("DELEG", fid, "arguments", hirq.loc(c), "key roots %s / weight roots %s are not the map's key and value" % (sorted(r0), sorted(r1)))
         return
     ctx.ok("DELEG", fid, "one unconditional self.%s(%s, %s) per element, no other effect" % (item, nf.nf(a0), nf.nf(a1)), hirq.loc(c))
@@ -343,38 +344,51 @@ def _band_rule(ctx, facts, fid):
     """the k-th unit interval visited by an item is [k*winv, (k+1)*winv): the band counter must give k = 1 on first use
     and advance by one, in ProbMinHash3 (loop counter from 1, band = i) and in 3a/3aSha (pass counter from 2, band = i-1)
     alike; 3a's keep filter must test the lower end of the NEXT band"""
-    from ..rulelib import def_exprs
+    from ..rulelib import def_exprs, mutable_locals, resolver_of
     fn = facts.fn(fid)
     where = hirq.loc(fn)
-    idefs = def_exprs(fn, "i")
-    inits = [d for d in idefs if d["k"] != "AssignOp"]
-    steps = [d for d in idefs if d["k"] == "AssignOp"]
-    if len(inits) != 1 or len(steps) != 1 or _affine(inits[0], "i") is None or nf.nf(steps[0]) != "i += 1":
-        ctx.violation("BAND", fid, "band counter", where, "the band counter `i` must be initialised once with a literal and advanced by `i += 1`; found %s" % [nf.nf(d) for d in idefs])
+    R = resolver_of(fn)
+    # discover the race value h (the local compared in the register guard) and the band counter (the mutable local in
+    # the affine factor of the assignment h = <affine> * <inverse weight>)
+    t0 = tree_of(fn)
+    hname = None
+    for (w_, _f, _i) in writes_to_self(fn, "signature"):
+        for it in nf.all_conditions(t0, w_):
+            if it[0] == "cmp" and it[2] == "<" and it[3].startswith("self.%s.get_value(" % TRACKER):
+                hname = it[1]
+    if hname is None:
+        ctx.violation("BAND", fid, "race value", where, "cannot identify the race value compared in the register guard")
         return
-    c0 = _affine(inits[0], "i")[1]
-    # band assignments h = <band> * winv
-    bands = []
-    for d in def_exprs(fn, "h"):
+    cname, band_node, band = None, None, None
+    muts = mutable_locals(fn)
+    for d in def_exprs(fn, hname):
         if d["k"] == "AssignOp":
             continue
         e = nf.strip_casts(d)
         if e["k"] == "Binary" and e["op"] == "*":
             for (x, y) in ((e["l"], e["r"]), (e["r"], e["l"])):
-                if nf.nf(y, True) == "winv":
-                    a = _affine(x, "i")
-                    if a is not None:
-                        bands.append((a, d))
-    if len(bands) != 1:
-        ctx.violation("BAND", fid, "band expression", where, "expected exactly one assignment h = <affine in i> * winv; found %d" % len(bands))
+                for cand in muts:
+                    a_ = _affine(x, cand)
+                    if a_ is not None and a_[0] != 0 and nf.nf(y, True, res=R) in ("(1.0 / weight)", "winv", "(1.0 / weight_t.to_f64().unwrap())", "(1.0 / weight_a.to_f64().unwrap())") or \
+                            (a_ is not None and a_[0] != 0 and not any(p_["k"] == "Path" and p_["res"].get("name") == cand for p_ in hirq.walk(y))):
+                        cname, band_node, band, winv_nf = cand, d, a_, nf.nf(y, True)
+    if cname is None:
+        ctx.violation("BAND", fid, "band expression", where, "expected exactly one assignment %s = <affine in the band counter> * <inverse weight>; found none" % hname)
         return
-    (a, b), node = bands[0]
+    idefs = def_exprs(fn, cname)
+    inits = [d for d in idefs if d["k"] != "AssignOp"]
+    steps = [d for d in idefs if d["k"] == "AssignOp"]
+    if len(inits) != 1 or len(steps) != 1 or _affine(inits[0], cname) is None or nf.nf(steps[0]) != "%s += 1" % cname:
+        ctx.violation("BAND", fid, "band counter", where, "the band counter `%s` must be initialised once with a literal and advanced by `+= 1`; found %s" % (cname, [nf.nf(d) for d in idefs]))
+        return
+    c0 = _affine(inits[0], cname)[1]
+    (a, b), node = band, band_node
     first = a * c0 + b
     if a == 1 and first == 1:
-        ctx.ok("BAND", fid, "band index %s with i from %d: first band 1, unit step" % ("i%+d" % b if b else "i", c0), hirq.loc(node))
+        ctx.ok("BAND", fid, "band index %s with %s from %d: first band 1, unit step" % ("%s%+d" % (cname, b) if b else cname, cname, c0), hirq.loc(node))
     else:
         ctx.violation("BAND", fid, "band offset", hirq.loc(node),
-                      "the lower end of the band is (%d*i%+d)*winv with i starting at %d: the first band visited after the initial point is %d, not 1 — ProbMinHash3 and 3a/3aSha would visit different unit intervals" % (a, b, c0, first))
+                      "the lower end of the band is (%d*%s%+d)*winv with %s starting at %d: the first band visited after the initial point is %d, not 1 — ProbMinHash3 and 3a/3aSha would visit different unit intervals" % (a, cname, b, cname, c0, first))
         return
     # keep filters of the two-pass variants: `winv < qmax` after the first point, `winv * i < qmax` in pass i
     t = tree_of(fn)
@@ -397,12 +411,12 @@ def _band_rule(ctx, facts, fid):
                     c_ = nf.strip(cnode)
                     if c_["k"] == "Binary" and c_["op"] in ("<", "<="):
                         l_ = nf.strip_casts(c_["l"])
-                        if nf.nf(l_, True) == "winv":
+                        if nf.nf(l_, True) == winv_nf:
                             lhs_aff = (0, 1)
                         elif l_["k"] == "Binary" and l_["op"] == "*":
                             for (x, y) in ((l_["l"], l_["r"]), (l_["r"], l_["l"])):
-                                if nf.nf(y, True) == "winv" and _affine(x, "i") is not None:
-                                    lhs_aff = _affine(x, "i")
+                                if nf.nf(y, True) == winv_nf and _affine(x, cname) is not None:
+                                    lhs_aff = _affine(x, cname)
                         break
             if lhs_aff is not None:
                 ca, cb = lhs_aff
